@@ -784,25 +784,32 @@ def bpt(T, d, owns, basis, noise):
 
 
 def lattices(quick):
-    """The constants of every TLC run of this tier."""
+    """The constants of every TLC run of this tier (DN tuples of spec/Observables.tla)."""
     all2, all3, all4 = "{1,2,3,4,5}", "{1,2,5,6,8}", "{1,5,6,7}"
+    one = '{"id"}'
     if quick:
         rep = [dn(2, 1, all2, "{1,5}"), dn(3, 1, all3, "{5,6}"), dn(4, 1, all4, "{7}"),
-               dn(2, 2, "{1,2,5}", "{5}"), dn(3, 2, "{5,6}"), dn(4, 2, "{7}"),
-               dn(2, 3, "{1,5}"), dn(2, 4, "{5}"), dn(3, 3, "{6}")]
-        small = [dn(2, 1), dn(2, 2), dn(3, 1), dn(4, 1), dn(2, 3)]
-        lean = [dn(3, 2, lean=True), dn(2, 4, lean=True), dn(4, 2, lean=True), dn(3, 3, lean=True)]
-        return {"rep": rep, "alg": small + lean, "act": small + lean, "obs": small + lean,
-                "ords": '{"id", "rot"}', "maxlaw": 9, "maxrep": 27, "maxprod": 27}
-    rep = [dn(2, 1, all2, all2), dn(3, 1, all3, all3), dn(4, 1, all4 + " \\cup {2, 8}", all4),
-           dn(2, 2, all2, "{1,5}"), dn(3, 2, "{1,5,6}", "{6}"), dn(4, 2, "{1,5,7}", "{7}"),
-           dn(2, 3, "{1,2,5}", "{5}"), dn(2, 4, "{1,5}"), dn(3, 3, "{5,6}"), dn(4, 3, "{7}"),
-           dn(3, 4, "{6}"), dn(4, 4, "{7}", lean=True)]
-    full = [dn(2, 1), dn(2, 2), dn(3, 1), dn(4, 1), dn(3, 2), dn(2, 3)]
-    lean = [dn(2, 4, lean=True), dn(4, 2, lean=True), dn(3, 3, lean=True), dn(4, 3, lean=True),
-            dn(3, 4, lean=True)]
-    return {"rep": rep, "alg": full + lean, "act": full + lean, "obs": full + lean + [dn(4, 4, lean=True)],
-            "ords": '{"id", "rot", "rev"}', "maxlaw": 16, "maxrep": 81, "maxprod": 81}
+               dn(2, 2, "{1,2,5}", "{1,5}"), dn(3, 2, "{1,5,6}", "{6}"), dn(4, 2, "{1,7}", "{7}"),
+               dn(2, 3, "{1,2,5}", "{5}"), dn(2, 4, "{1,5}"), dn(3, 3, "{5,6}"),
+               dn(4, 3, "{7}", ords=one), dn(3, 4, "{6}", ords=one), dn(4, 4, "{7}", ords=one)]
+        full = [dn(2, 1), dn(2, 2), dn(3, 1), dn(4, 1), dn(2, 3), dn(3, 2), dn(4, 2), dn(2, 4)]
+        lean = [dn(3, 3, lean=True), dn(4, 3, lean=True, ords=one), dn(3, 4, lean=True, ords=one),
+                dn(4, 4, lean=True, ords=one)]
+        return {"rep": rep, "alg": full + lean, "act": full + lean, "obs": full + lean,
+                "maxlaw": 16, "maxrep": 81, "maxprod": 27}
+    three = '{"id", "rot", "rev"}'
+    rep = [dn(2, 1, all2, all2, ords=three), dn(3, 1, all3, all3, ords=three),
+           dn(4, 1, all4 + " \\cup {2, 8}", all4, ords=three),
+           dn(2, 2, all2, "{1,2,5}", ords=three), dn(3, 2, "{1,2,5,6}", "{5,6}", ords=three),
+           dn(4, 2, "{1,5,7}", "{1,7}", ords=three),
+           dn(2, 3, "{1,2,5}", "{1,5}"), dn(2, 4, "{1,2,5}", "{5}"), dn(3, 3, "{1,5,6}", "{6}"),
+           dn(4, 3, "{5,7}"), dn(3, 4, "{5,6}"), dn(4, 4, "{5,7}")]
+    full = [dn(2, 1, ords=three), dn(2, 2, ords=three), dn(3, 1, ords=three), dn(4, 1, ords=three),
+            dn(2, 3, ords=three), dn(3, 2, ords=three), dn(4, 2, ords=three), dn(2, 4, ords=three),
+            dn(3, 3)]
+    lean = [dn(4, 3, lean=True), dn(3, 4, lean=True), dn(4, 4, lean=True)]
+    return {"rep": rep, "alg": full + lean, "act": full + lean, "obs": full + lean,
+            "maxlaw": 27, "maxrep": 256, "maxprod": 81}
 
 
 def times_constants(quick):
